@@ -9,7 +9,7 @@ together with its text forms.  `realKeyEnv` is driver glue over the C02 curve mo
 -/
 namespace Pycoin.Driver.C18
 open Pycoin.Addr Pycoin.Driver Pycoin.Gen.Networks
-open Pycoin.Driver.C08 (realEnv parseText? showInfo)
+open Pycoin.Driver.C08 (parseText? showInfo)
 
 def powMod (a e m : Nat) : Nat := Id.run do
   let mut r := 1
